@@ -29,6 +29,9 @@ CONSTANTS PreferWildcardB3,  \* TRUE: IndexedCache.retrieve before "fix: Indexed
           ReplayLeavesOutRepeats,    \* TRUE: of the cache entries that match a lookup, the ones that repeat a more general
                              \* one with the same truth value are not replayed (commit "fix: a cached result stored
                              \* under a partial binding ..."); FALSE: every matching entry is replayed, as before
+          ElseIfStoresDuplicates,    \* TRUE: ElseIf stores a true result of its right branch in the right cache before the
+                             \* duplicate test (commit "fix: a disjunction did not cache ..."); FALSE: a result dropped
+                             \* as a duplicate is not stored, although the coverage list may claim everything is known
           ForAllKeepsConditionVars  \* TRUE: for_all requires all non-universal variables of its condition from the
                              \* condition's results (commit "fix: for_all lost solutions ..."); FALSE: as before
 
@@ -114,6 +117,8 @@ NodeVars3(n) ==
     [] n.k = "forall" -> {n.uv} \cup NodeVars3(n.c)
     [] OTHER -> NodeVars(n)
 
+LeftVars3(n) == IF RightKeepsLeftVars THEN NodeVars3(n.l) ELSE {}
+
 \* ---------------- evaluator state: seen-sets and caches ----------------
 \* S = [st : seen-sets of EQLMech2, c : caches by <<path, which>>]
 CacheOf(S, key) == IF key \in DOMAIN S.c THEN S.c[key] ELSE EmptyCache
@@ -162,7 +167,7 @@ Ev3(n, path, b, ywf, RT, RF, S, q, W) ==
     [] n.k = "elif" ->
          LET L == Ev3(n.l, Append(path, 0), b, TRUE, RT, NodeVars3(n.r) \cup RT \cup RF, S, q, W)
          IN IF L.outs = <<>>
-            THEN LET R == Ev3(n.r, Append(path, 1), b, ywf, RT, RF, L.S, q, W)
+            THEN LET R == Ev3(n.r, Append(path, 1), b, ywf, RT \cup LeftVars3(n), RF \cup LeftVars3(n), L.S, q, W)
                      kept == SelectSeq(R.outs, LAMBDA o : ywf \/ ~o.f)
                  IN [outs |-> kept, S |-> StoreAll(kept, 1, <<path, "right">>, NodeVars3(n.r), R.S)]
             ELSE ElifFold3(n, path, b, ywf, RT, RF, L.outs, 1, <<>>, L.S, <<q, W>>)
@@ -215,7 +220,7 @@ AndFold3(n, path, b, ywf, RT, RF, louts, i, acc, S, qw) ==
                IN IF chk.hit
                   THEN LET H == Replay(Hits(chk.c.ents, KeySeq(qw[1], keys), lb), 1, path, RF, <<>>, S1)
                        IN AndFold3(n, path, b, ywf, RT, RF, louts, i + 1, acc \o H.outs, H.S, qw)
-                  ELSE LET R == Ev3(n.r, Append(path, 1), lb, ywf, RT, RF, S1, qw[1], qw[2])
+                  ELSE LET R == Ev3(n.r, Append(path, 1), lb, ywf, RT \cup LeftVars3(n), RF \cup LeftVars3(n), S1, qw[1], qw[2])
                            outs == [j \in 1..Len(R.outs) |-> Out(MergeB(lb, R.outs[j].b), R.outs[j].f)]
                        IN AndFold3(n, path, b, ywf, RT, RF, louts, i + 1, acc \o outs,
                                    StoreAll(outs, 1, ckey, keys, R.S), qw)
@@ -231,7 +236,8 @@ RightTrue3(path, RT, routs, lb, j, acc, S, ywf, keys) ==
           THEN IF ywf THEN RightTrue3(path, RT, routs, lb, j + 1, Append(acc, Out(ob, TRUE)), put(S, TRUE), ywf, keys)
                ELSE RightTrue3(path, RT, routs, lb, j + 1, acc, S, ywf, keys)
           ELSE LET d == Dup3(S, <<path, TRUE>>, ob, RT)
-               IN IF d.dup THEN RightTrue3(path, RT, routs, lb, j + 1, acc, d.S, ywf, keys)
+               IN IF d.dup THEN RightTrue3(path, RT, routs, lb, j + 1, acc,
+                                           IF ElseIfStoresDuplicates THEN put(d.S, FALSE) ELSE d.S, ywf, keys)
                   ELSE RightTrue3(path, RT, routs, lb, j + 1, Append(acc, Out(ob, FALSE)), put(d.S, FALSE), ywf, keys)
 
 ElifFold3(n, path, b, ywf, RT, RF, louts, i, acc, S, qw) ==
@@ -246,7 +252,7 @@ ElifFold3(n, path, b, ywf, RT, RF, louts, i, acc, S, qw) ==
                IN IF chk.hit
                   THEN LET H == Replay(Hits(chk.c.ents, KeySeq(qw[1], keys), lb), 1, path, RF, <<>>, S1)
                        IN ElifFold3(n, path, b, ywf, RT, RF, louts, i + 1, acc \o H.outs, H.S, qw)
-                  ELSE LET R == Ev3(n.r, Append(path, 1), lb, ywf, RT, RF, S1, qw[1], qw[2])
+                  ELSE LET R == Ev3(n.r, Append(path, 1), lb, ywf, RT \cup LeftVars3(n), RF \cup LeftVars3(n), S1, qw[1], qw[2])
                            T == RightTrue3(path, RT, R.outs, lb, 1, <<>>, R.S, ywf, keys)
                        IN ElifFold3(n, path, b, ywf, RT, RF, louts, i + 1, acc \o T.outs, T.S, qw)
           ELSE ElifFold3(n, path, b, ywf, RT, RF, louts, i + 1, Append(acc, Out(lb, FALSE)), S, qw)
